@@ -168,7 +168,11 @@ func (p *c05Probe) build(u *c05Univ, next *int) {
 		}
 		for k, tg := range p.Tgts {
 			use := "_ = x"
-			switch tg.Kind {
+			kind := tg.Kind
+			if p.Form == "nouse" {
+				kind = ""
+			}
+			switch kind {
 			case "iface":
 				mn, sig := u.firstIfaceMethod(tg.Idx)
 				use = fmt.Sprintf("fmt.Println(\"%s.w%d\", x.%s%s)", id, k, mn, argsOfSig(sig))
